@@ -9,7 +9,7 @@ DEFAULT_PROFILE = dict(
     p_opt=0.1, p_split=0.15, p_default=0.35, p_subdir=0.2, p_twodot=0.3,
     steps=(6, 18),
     ops=dict(build=8, edit_r=3, edit_i=2, touch=1, rm=2, doedit=1, doadd=1, dorm=1, sel=2, flag=2, watch=2,
-             force=1, repeat=2, uwrite=0, urm=0, dorm_last=0.5, m_watchduring=0, chmod=0),
+             force=1, repeat=2, uwrite=0, urm=0, dorm_last=0.5, m_watchduring=0, chmod=0, edit_keep=0.7),
     jmax=1, p_keep=0.0, p_multi=0.25,
 )
 
@@ -150,7 +150,7 @@ def gen_op(rnd, p, prof, last_build=None):
         if last_build is None:
             return None
         return ('build', list(last_build[1]), dict(last_build[2], forced=False))
-    if op in ('edit_r', 'edit_i', 'touch'):
+    if op in ('edit_r', 'edit_i', 'touch', 'edit_keep'):
         return (op, rnd.choice(sorted(p.sources)))
     if op == 'rm':
         n = rnd.choice(tnames)
